@@ -308,12 +308,25 @@ def check(ctx, as_premise=False):
     ctx.ob("S7", "PUBLISH payload type dispatch ends in a raise", bool(tguard), where="src/mqtt/pdu.py", construct="mqtt.pdu.PUBLISH/payload-type-raise",
            msg="a payload that is neither bytearray nor str does not raise")
     big = None
+    from ..codec_prims import truth_set, _iv_not, INF
     for x in (y for s in pub.body for y in ast.walk(s)):      # encode() with its helpers inlined
-        if isinstance(x, ast.If) and any(isinstance(y, ast.Raise) for y in x.body) and isinstance(x.test, ast.Compare) and len(x.test.ops) == 1:
-            ok, cst = prog.try_fold(x.test.comparators[0], mod)
-            if ok and isinstance(cst, int) and cst > 65535:
-                big = (type(x.test.ops[0]).__name__, cst, x)
-    okb = big is not None and ((big[0] == "Gt" and big[1] == 268435455) or (big[0] == "GtE" and big[1] == 268435456))
+        if isinstance(x, ast.If) and any(isinstance(y, ast.Raise) for y in x.body):
+            # the raising test as the set of sizes it lets through, whatever way round it is written
+            cands = set()
+            for y in ast.walk(x.test):
+                if isinstance(y, ast.Compare):
+                    for o_ in [y.left] + list(y.comparators):
+                        if not prog.try_fold(o_, mod)[0]:
+                            cands.add(ast.unparse(o_))
+            for nm in cands:
+                t = truth_set(x.test, nm, lambda e: prog.try_fold(e, mod))
+                if t is None:
+                    continue
+                acc = _iv_not(t)
+                top = acc[-1][1] if acc else None
+                if top is not None and top != INF and top > 65535:
+                    big = ("Gt", top, x)
+    okb = big is not None and big[1] == 268435455
     ctx.ob("S7", "PUBLISH rejects a remaining length above 268435455", okb, where=loc(big[2]) if big else "src/mqtt/pdu.py",
            function="mqtt.pdu.PUBLISH.encode", construct="mqtt.pdu.PUBLISH/size-guard", msg="size guard is %s" % (str(big[:2]) if big else None))
     # ---------------- S6: stored packets patched at byte 0 with dup<<3 only ----------------
